@@ -279,6 +279,11 @@ pub fn check_text<const N: usize>(acc: &mut Acc, text: &str, origin: &str) -> &'
                 Err(e) => acc.fail("C14", "script:panic-on-malformed", format!("the malformed script {text:?} made deploy_to panic instead of returning Err: {e}"), replay),
                 Ok(Ok(n)) => acc.fail("C14", "script:malformed-accepted", format!("the malformed script {text:?} was accepted (returned {n})"), replay),
                 Ok(Err(_)) => {
+                    // the next_id() calls of the commands before the malformed one are among their effects:
+                    // the allocator may be further on (the malformed command may have taken an id), never behind
+                    if g.verif_snapshot().next_v < want.verif_snapshot().next_v {
+                        acc.fail("C14", "script:prefix-ids-handed-back", format!("after the malformed script {text:?} the allocator position is {} but the commands before the malformed one leave it at {}: ids given to $variables would be handed out again", g.verif_snapshot().next_v, want.verif_snapshot().next_v), replay.clone());
+                    }
                     if without_pos(g.verif_snapshot()) != without_pos(want.verif_snapshot()) {
                         acc.fail("C14", "script:prefix-not-applied", format!("after the malformed script {text:?} the graph is {:?} but the commands before the malformed one give {:?}", format!("{g:?}"), format!("{want:?}")), replay);
                     }
